@@ -59,6 +59,7 @@ def expected : Ctx → Data
   | .binding k v => .attrs [(k, denote v)]
   | .list xs => .list (denoteEs xs)
   | .setItem d k v => .attrs (dictSet (denoteKvs d) k (denote v))
+  | .setItemOn d _ k v => .attrs (dictSet (denoteKvs d) k (denote v))
 
 /-- How the text of a context is read: a lone binding is read inside braces. -/
 def readCtx : Ctx → Text → Option Data
@@ -119,6 +120,7 @@ def ctxInDomain : Ctx → Bool
   | .binding k v => isDataKey k && valInDomain v
   | .list xs => elemsInDomain xs
   | .setItem d k v => valInDomain (.dict d) && isDataKey k && valInDomain v
+  | .setItemOn d _ k v => valInDomain (.dict d) && isDataKey k && valInDomain v
 
 /-! ## The side condition under which the rendering is faithful
 
@@ -163,5 +165,42 @@ def ctxReadable : Ctx → Bool
   | .binding k v => isDataKey k && valReadable v
   | .list xs => elemsReadable xs
   | .setItem d k v => valReadable (.dict d) && isDataKey k && valReadable v
+  | .setItemOn d _ k v => valReadable (.dict d) && isDataKey k && valReadable v
+
+/-! ## The three documented defects, named directly
+
+For values of the domain, `…Readable` is equivalent to avoiding them (`Lemmas/Value.lean`,
+`readable_eq_avoids`): no negative number as a list element, no float whose repr lacks a `.`, no
+integer outside 64 bits. The harness classifies failing inputs with the same three tests. -/
+
+mutual
+def elemAvoids (inList : Bool) : Elem → Bool
+  | .none => true
+  | .bool _ => true
+  | .int i => i.natAbs ≤ nixIntMax && !(inList && i < 0)
+  | .float r => (unsignedRepr r).contains '.' && !(inList && isNegRepr r)
+  | .str _ => true
+  | .list xs => elemsAvoid xs
+def elemsAvoid : List Elem → Bool
+  | [] => true
+  | x :: xs => elemAvoids true x && elemsAvoid xs
+end
+
+mutual
+def valAvoids : PyVal → Bool
+  | .elem e => elemAvoids false e
+  | .dict kvs => kvsAvoid kvs
+def kvsAvoid : List (Text × PyVal) → Bool
+  | [] => true
+  | (_, v) :: rest => valAvoids v && kvsAvoid rest
+end
+
+def ctxAvoids : Ctx → Bool
+  | .fromDict d => kvsAvoid d
+  | .values d => kvsAvoid d
+  | .binding _ v => valAvoids v
+  | .list xs => elemsAvoid xs
+  | .setItem d _ v => kvsAvoid d && valAvoids v
+  | .setItemOn d _ _ v => kvsAvoid d && valAvoids v
 
 end Nima
